@@ -448,6 +448,12 @@ do_runmap(Model& m, int i, const std::string& k)
         kk = r.mlen + 1;
     else if (k == "huge")
         kk = (size_t)1 << 40;
+    else if (k == "max")
+        kk = (size_t)-1; // "I took everything"
+    else if (k == "i63")
+        kk = (size_t)1 << 63;
+    else if (k == "i63m")
+        kk = ((size_t)1 << 63) + r.mlen - 1;
     else if (k == "half")
         kk = r.mlen / 2;
     else if (k == "lenm1")
@@ -615,8 +621,11 @@ struct ChanHarness : Harness
                 return "1";
             case 2:
                 return "over";
-            case 3:
-                return "huge";
+            case 3: {
+                // counts above the mapped length, up to the largest value
+                static const char* big[] = { "huge", "max", "i63", "i63m" };
+                return big[g.below(4)];
+            }
             case 4:
                 return "half";
             case 5:
